@@ -405,6 +405,36 @@ func (e *Engine) specPrelude(toks map[string]bool, mode string) (string, error) 
 			}
 		}
 	}
+	// named axioms: select to a fixpoint (an axiom is relevant when it mentions a needed function; it may need more)
+	selected := map[int]bool{}
+	for changed := true; changed; {
+		changed = false
+		for ai, ax := range e.specs.Axioms {
+			if selected[ai] {
+				continue
+			}
+			deps := map[string]bool{}
+			specDeps(ax.C.E, deps)
+			use := false
+			for d := range deps {
+				if need[d] || toks[d] {
+					use = true
+				}
+			}
+			if !use {
+				continue
+			}
+			selected[ai] = true
+			changed = true
+			for d := range deps {
+				if _, ok := e.specs.Funcs[d]; ok {
+					if err := visit(d); err != nil {
+						return "", err
+					}
+				}
+			}
+		}
+	}
 	var b strings.Builder
 	// recursive / uninterpreted: declarations first
 	for _, n := range order {
@@ -420,35 +450,15 @@ func (e *Engine) specPrelude(toks map[string]bool, mode string) (string, error) 
 	for _, n := range order {
 		b.WriteString(rendered[n].axioms)
 	}
-	// named axioms mentioning any needed function
 	x := e.specExec(mode)
-	for _, ax := range e.specs.Axioms {
-		deps := map[string]bool{}
-		specDeps(ax.C.E, deps)
-		use := false
-		for d := range deps {
-			if need[d] || toks[d] {
-				use = true
-			}
-		}
-		if !use {
+	for ai, ax := range e.specs.Axioms {
+		if !selected[ai] {
 			continue
 		}
 		env := &SpecEnv{x: x, st: x.pre, preSt: x.pre, bind: map[string]Value{}, bindPre: map[string]Value{}, bound: map[string]Value{}}
 		t, err := e.safeEval(x, env, ax.C.E)
 		if err != nil {
 			return "", fmt.Errorf("axiom %s: %v", ax.Name, err)
-		}
-		// an axiom may pull further spec functions
-		for d := range deps {
-			if _, ok := e.specs.Funcs[d]; ok && !need[d] {
-				if err := visit(d); err != nil {
-					return "", err
-				}
-				rs := rendered[d]
-				b.WriteString(rs.decl)
-				b.WriteString(rs.axioms)
-			}
 		}
 		fmt.Fprintf(&b, "(assert (! %s :named ax_%s))\n", t.S, symSan.ReplaceAllString(ax.Name, "_"))
 		e.usedAxioms[ax.Name] = ax.By
